@@ -311,6 +311,43 @@ func scripted(sres map[string]interface{}) func(args sharding.ArgsUpdateNodes) (
 		for _, id := range intsOf(sres["leaving"]) {
 			res.Leaving = append(res.Leaving, get(id))
 		}
+		// The stub behaves like a conserving shuffler on what it is ACTUALLY handed: occurrences of a validator that
+		// the scripted result does not account for (the specification predicted other arguments) stay where they are.
+		// With the predicted arguments there is no surplus.
+		acc := map[int]int{}
+		for _, l := range res.Eligible {
+			for _, v := range l {
+				acc[nc.ID(v.PubKey())]++
+			}
+		}
+		for _, l := range res.Waiting {
+			for _, v := range l {
+				acc[nc.ID(v.PubKey())]++
+			}
+		}
+		for _, v := range res.Leaving {
+			acc[nc.ID(v.PubKey())]++
+		}
+		keep := func(m map[uint32][]sharding.Validator, src map[uint32][]sharding.Validator) {
+			shardIDs := make([]uint32, 0, len(src))
+			for s := range src {
+				shardIDs = append(shardIDs, s)
+			}
+			sort.Slice(shardIDs, func(i, j int) bool { return shardIDs[i] < shardIDs[j] })
+			for _, s := range shardIDs {
+				for _, v := range src[s] {
+					id := nc.ID(v.PubKey())
+					if acc[id] > 0 {
+						acc[id]--
+						continue
+					}
+					m[s] = append(m[s], v)
+				}
+			}
+		}
+		keep(res.Eligible, args.Eligible)
+		keep(res.Waiting, args.Waiting)
+		keep(res.Waiting, map[uint32][]sharding.Validator{0: args.NewNodes})
 		return res, nil
 	}
 }
@@ -471,11 +508,6 @@ func toIface(a []int) []interface{} {
 }
 
 func replay(path, out string, every int) {
-	bs, err := vtrace.ReadBehaviours(path)
-	if err != nil {
-		vtrace.Broken(err.Error())
-		return
-	}
 	w, err := vtrace.NewWriter(out)
 	if err != nil {
 		vtrace.Broken(err.Error())
@@ -483,11 +515,10 @@ func replay(path, out string, every int) {
 	}
 	distinct := vtrace.NewDistinct()
 	steps, mismatches, written, samples := 0, 0, 0, 0
-	for bi, b := range bs {
+	nb, err := nc.EachBehaviour(path, func(bi int, b []vtrace.Step) error {
 		evs, mm, err := runBehaviour(b)
 		if err != nil {
-			vtrace.Broken(fmt.Sprintf("behaviour %d: %v", bi, err))
-			return
+			return fmt.Errorf("behaviour %d: %v", bi, err)
 		}
 		steps += len(b) - 1
 		if len(b) > 1 {
@@ -513,13 +544,19 @@ func replay(path, out string, every int) {
 		}
 		if len(b) > 1 && samples < 2 && len(asList(b[len(b)-1].In["infos"])) >= 3 {
 			samples++
-			vtrace.Sample("C16", M{"behaviour": b, "real_final_state": evs[len(evs)-1].st})
+			vtrace.Sample("C16", M{"initial": b[0].St["cfgs"], "last_step": b[len(b)-1].A, "last_step_in": b[len(b)-1].In,
+				"real_state_after": evs[len(evs)-1].st})
 		}
+		return nil
+	})
+	if err != nil {
+		vtrace.Broken(err.Error())
+		return
 	}
 	if err := w.Close(); err != nil {
 		vtrace.Broken(err.Error())
 	}
-	vtrace.Stat("behaviours", len(bs))
+	vtrace.Stat("behaviours", nb)
 	vtrace.Stat("steps", steps)
 	vtrace.Stat("mismatches", mismatches)
 	vtrace.Stat("written", written)
